@@ -1,1 +1,478 @@
 import ActixModel.Model.Encoder
+/-
+Helper lemmas for C13 (encoder): the bytes still to come from a state (`rem`) are an invariant
+of `poll_next`, every non-final poll consumes part of a finite measure.
+-/
+namespace ActixModel.Encoder
+open ActixModel.Util
+
+variable {σ : Type} {ip : Bytes → Bool}
+
+/-- everything encoder state `e` will still emit if it is fed `xs` (write, take per chunk) and
+then finished -/
+def encRest (c : Codec σ) (e : σ) : List Bytes → Bytes
+  | [] => c.finish e
+  | x :: xs => (c.take (c.write e x)).1 ++ encRest c (c.take (c.write e x)).2 xs
+
+/-- bytes still to be emitted from state `s` when the body will answer `body` -/
+def rem (c : Codec σ) (s : Enc σ) (body : List BodyEv) : Bytes :=
+  if s.eof then [] else
+  match s.fut with
+  | some e' => (c.take e').1 ++ encRest c (c.take e').2 (chunksOf body)
+  | none =>
+    match s.encoder with
+    | some e => encRest c e (chunksOf body)
+    | none => (chunksOf body).flatten
+
+def outBytes : Out → Bytes
+  | .chunk b => b
+  | _ => []
+
+theorem flatten_outChunks (os : List Out) : (outChunks os).flatten = (os.map outBytes).flatten := by
+  induction os with
+  | nil => rfl
+  | cons o t ih => cases o <;> simp [outChunks, outBytes, ih]
+
+/-! ### `futStep` -/
+
+theorem futStep_ret {c : Codec σ} {s s' : Enc σ} {joins j' : List Nat} {o : Out} {body : List BodyEv}
+    (hs : s.eof = false) (h : futStep c s joins = .ret o s' j') :
+    outBytes o ++ rem c s' body = rem c s body ∧ s'.eof = false ∧ o ≠ .err ∧ o ≠ .done ∧
+      (joins.sum + (if s.fut.isSome then 1 else 0) >
+        j'.sum + (if s'.fut.isSome then 1 else 0)) := by
+  unfold futStep at h
+  split at h
+  · simp at h
+  · rename_i e' hf
+    split at h
+    · rename_i n js
+      simp only [FutStep.ret.injEq] at h
+      obtain ⟨rfl, rfl, rfl⟩ := h
+      simp [outBytes, hs, hf]
+    · dsimp only at h
+      split at h
+      · simp at h
+      · rename_i hne
+        simp only [FutStep.ret.injEq] at h
+        obtain ⟨rfl, rfl, rfl⟩ := h
+        refine ⟨?_, hs, by simp, by simp, ?_⟩
+        · simp [rem, hs, hf, outBytes]
+        · simp only [hf, Option.isSome_some, ↓reduceIte, Option.isSome_none, Bool.false_eq_true]
+          cases joins with
+          | nil => simp
+          | cons a t => simp; omega
+
+theorem futStep_go {c : Codec σ} {s s' : Enc σ} {joins j' : List Nat} {body : List BodyEv}
+    (hs : s.eof = false) (h : futStep c s joins = .go s' j') :
+    rem c s' body = rem c s body ∧ s'.eof = false ∧ s'.fut = none ∧
+      (joins.sum + (if s.fut.isSome then 1 else 0) ≥ j'.sum) := by
+  unfold futStep at h
+  split at h
+  · rename_i hf
+    simp only [FutStep.go.injEq] at h
+    obtain ⟨rfl, rfl⟩ := h
+    exact ⟨rfl, hs, hf, by simp⟩
+  · rename_i e' hf
+    split at h
+    · simp at h
+    · dsimp only at h
+      split at h
+      · rename_i hem
+        simp only [FutStep.go.injEq] at h
+        obtain ⟨rfl, rfl⟩ := h
+        refine ⟨?_, hs, rfl, ?_⟩
+        · simp [rem, hs, hf, List.isEmpty_iff.mp hem]
+        · cases joins with
+          | nil => simp
+          | cons a t => simp; omega
+      · simp at h
+
+/-! ### `poll_next` -/
+
+/-- termination measure: every poll that is not final strictly decreases it -/
+def mu (s : Enc σ) (body : List BodyEv) (joins : List Nat) : Nat :=
+  2 * body.length + joins.sum + (if s.fut.isSome then 1 else 0) + (if s.eof then 0 else 1)
+
+theorem rem_nofut {c : Codec σ} {s : Enc σ} {body : List BodyEv} (he : s.eof = false) (hf : s.fut = none) :
+    rem c s body = match s.encoder with
+      | some e => encRest c e (chunksOf body)
+      | none => (chunksOf body).flatten := by
+  simp [rem, he, hf]
+
+/-- one `poll_next`: output ++ what is still to come = what was still to come -/
+theorem pollNext_rem (ip : Bytes → Bool) (c : Codec σ) (s : Enc σ) (body : List BodyEv) (joins : List Nat) :
+    hasErr body = false →
+      outBytes (pollNextAt ip c s body joins).1 ++
+          rem c (pollNextAt ip c s body joins).2.1 (pollNextAt ip c s body joins).2.2.1 = rem c s body ∧
+      hasErr (pollNextAt ip c s body joins).2.2.1 = false ∧ (pollNextAt ip c s body joins).1 ≠ .err := by
+  fun_induction pollNextAt ip c s body joins
+  case case1 h => intro hb; simp [outBytes, rem, h, hb]
+  case case2 s body joins h o s' j' hfs =>
+    intro hb
+    have := futStep_ret (body := body) (by simpa using h) hfs
+    exact ⟨this.1, hb, this.2.2.1⟩
+  case case3 s joins h s' j' hfs e he ch hem =>
+    intro _
+    have hg := futStep_go (body := []) (by simpa using h) hfs
+    refine ⟨?_, rfl, by simp⟩
+    rw [← hg.1, rem_nofut hg.2.1 hg.2.2.1, he]
+    have hch : c.finish e = [] := List.isEmpty_iff.mp hem
+    simp [outBytes, rem, hg.2.1, hg.2.2.1, chunksOf, encRest, hch]
+  case case4 s joins h s' j' hfs e he ch hem =>
+    intro _
+    have hg := futStep_go (body := []) (by simpa using h) hfs
+    refine ⟨?_, rfl, by simp⟩
+    rw [← hg.1, rem_nofut hg.2.1 hg.2.2.1, he]
+    simp [outBytes, rem, chunksOf, encRest, ch]
+  case case5 s joins h s' j' hfs he =>
+    intro _
+    have hg := futStep_go (body := []) (by simpa using h) hfs
+    refine ⟨?_, rfl, by simp⟩
+    rw [← hg.1]
+    simp [outBytes]
+  case case6 => intro hb; simp [hasErr] at hb
+  case case7 s joins h s' j' hfs rest =>
+    intro hb
+    have hg := futStep_go (body := .pending :: rest) (by simpa using h) hfs
+    have hg' := futStep_go (body := rest) (by simpa using h) hfs
+    refine ⟨?_, by simpa [hasErr] using hb, by simp⟩
+    rw [← hg.1, rem_nofut hg.2.1 hg.2.2.1, rem_nofut hg.2.1 hg.2.2.1]
+    simp [outBytes, chunksOf]
+  case case8 s joins h s' j' hfs b rest e he hlt r s2 hem ih =>
+    intro hb
+    have hb' : hasErr rest = false := by simpa [hasErr] using hb
+    have hg := futStep_go (body := .chunk b :: rest) (by simpa using h) hfs
+    obtain ⟨ih1, ih2, ih3⟩ := ih hb'
+    refine ⟨?_, ih2, ih3⟩
+    rw [ih1, ← hg.1, rem_nofut hg.2.1 hg.2.2.1, he]
+    have hs2 : rem c s2 rest = encRest c r.2 (chunksOf rest) := by
+      rw [rem_nofut (by exact hg.2.1) (by exact hg.2.2.1)]
+    rw [hs2]
+    simp only [chunksOf, encRest]
+    have : (c.take (c.write e b)).1 = [] := List.isEmpty_iff.mp hem
+    simp [this, r]
+  case case9 s joins h s' j' hfs b rest e he hlt r s2 hem =>
+    intro hb
+    have hb' : hasErr rest = false := by simpa [hasErr] using hb
+    have hg := futStep_go (body := .chunk b :: rest) (by simpa using h) hfs
+    refine ⟨?_, hb', by simp⟩
+    rw [← hg.1, rem_nofut hg.2.1 hg.2.2.1, he]
+    have hs2 : rem c s2 rest = encRest c r.2 (chunksOf rest) := by
+      rw [rem_nofut (by exact hg.2.1) (by exact hg.2.2.1)]
+    simp only [hs2, outBytes, chunksOf, encRest, r]
+  case case10 s joins h s' j' hfs b rest e he hge ih =>
+    intro hb
+    have hb' : hasErr rest = false := by simpa [hasErr] using hb
+    have hg := futStep_go (body := .chunk b :: rest) (by simpa using h) hfs
+    obtain ⟨ih1, ih2, ih3⟩ := ih hb'
+    refine ⟨?_, ih2, ih3⟩
+    rw [ih1, ← hg.1, rem_nofut hg.2.1 hg.2.2.1, he]
+    simp [rem, hg.2.1, chunksOf, encRest]
+  case case11 s joins h s' j' hfs b rest he =>
+    intro hb
+    have hb' : hasErr rest = false := by simpa [hasErr] using hb
+    have hg := futStep_go (body := .chunk b :: rest) (by simpa using h) hfs
+    have hg' := futStep_go (body := rest) (by simpa using h) hfs
+    refine ⟨?_, hb', by simp⟩
+    rw [← hg.1, rem_nofut hg.2.1 hg.2.2.1, rem_nofut hg.2.1 hg.2.2.1, he]
+    simp [outBytes, chunksOf]
+
+/-- every poll that returns a chunk or Pending uses up part of the finite measure -/
+theorem pollNext_mu (ip : Bytes → Bool) (c : Codec σ) (s : Enc σ) (body : List BodyEv) (joins : List Nat) :
+    (pollNextAt ip c s body joins).1 ≠ .done → (pollNextAt ip c s body joins).1 ≠ .err →
+      mu (pollNextAt ip c s body joins).2.1 (pollNextAt ip c s body joins).2.2.1 (pollNextAt ip c s body joins).2.2.2
+        < mu s body joins := by
+  fun_induction pollNextAt ip c s body joins
+  case case1 => intro h; simp at h
+  case case2 s body joins h o s' j' hfs =>
+    intro _ _
+    have := futStep_ret (body := body) (by simpa using h) hfs
+    have he : s.eof = false := by simpa using h
+    simp only [mu, this.2.1, he]
+    have := this.2.2.2.2
+    simp only [Bool.false_eq_true, ↓reduceIte]
+    omega
+  case case3 => intro h; simp at h
+  case case4 s joins h s' j' hfs e he ch hem =>
+    intro _ _
+    have hg := futStep_go (body := []) (by simpa using h) hfs
+    have he : s.eof = false := by simpa using h
+    simp only [mu, hg.2.2.1, he, List.length_nil]
+    have := hg.2.2.2
+    simp
+    omega
+  case case5 => intro h; simp at h
+  case case6 => intro _ h; simp at h
+  case case7 s joins h s' j' hfs rest =>
+    intro _ _
+    have hg := futStep_go (body := rest) (by simpa using h) hfs
+    have he : s.eof = false := by simpa using h
+    simp only [mu, hg.2.2.1, hg.2.1, he, List.length_cons]
+    have := hg.2.2.2
+    simp
+    omega
+  case case8 s joins h s' j' hfs b rest e he hlt r s2 hem ih =>
+    intro h1 h2
+    have hg := futStep_go (body := rest) (by simpa using h) hfs
+    have hs : s.eof = false := by simpa using h
+    have := ih h1 h2
+    have h2' : mu s2 rest j' ≤ mu s (.chunk b :: rest) joins := by
+      have hf2 : s2.fut = none := hg.2.2.1
+      have he2 : s2.eof = false := hg.2.1
+      simp only [mu, hf2, he2, hs, List.length_cons]
+      have := hg.2.2.2
+      simp
+      omega
+    omega
+  case case9 s joins h s' j' hfs b rest e he hlt r s2 hem =>
+    intro _ _
+    have hg := futStep_go (body := rest) (by simpa using h) hfs
+    have hs : s.eof = false := by simpa using h
+    have hf2 : s2.fut = none := hg.2.2.1
+    have he2 : s2.eof = false := hg.2.1
+    simp only [mu, hf2, he2, hs, List.length_cons]
+    have := hg.2.2.2
+    simp
+    omega
+  case case10 s joins h s' j' hfs b rest e he hge ih =>
+    intro h1 h2
+    have hg := futStep_go (body := rest) (by simpa using h) hfs
+    have hs : s.eof = false := by simpa using h
+    have := ih h1 h2
+    have h2' : mu (σ := σ) { encoder := none, fut := some (c.write e b), eof := s'.eof } rest j'
+        ≤ mu s (.chunk b :: rest) joins := by
+      simp only [mu, hg.2.1, hs, List.length_cons]
+      have := hg.2.2.2
+      simp
+      omega
+    omega
+  case case11 s joins h s' j' hfs b rest he =>
+    intro _ _
+    have hg := futStep_go (body := rest) (by simpa using h) hfs
+    have hs : s.eof = false := by simpa using h
+    simp only [mu, hg.2.2.1, hg.2.1, hs, List.length_cons]
+    have := hg.2.2.2
+    simp
+    omega
+
+/-- when `poll_next` answers `Ready(None)` nothing remains to be emitted -/
+theorem rem_after_done (ip : Bytes → Bool) (c : Codec σ) (s : Enc σ) (body : List BodyEv) (joins : List Nat) :
+    (pollNextAt ip c s body joins).1 = .done →
+      rem c (pollNextAt ip c s body joins).2.1 (pollNextAt ip c s body joins).2.2.1 = [] := by
+  fun_induction pollNextAt ip c s body joins
+  case case1 h => intro _; simp [rem, h]
+  case case2 s body joins h o s' j' hfs =>
+    intro ho
+    have := futStep_ret (body := body) (by simpa using h) hfs
+    exact absurd ho this.2.2.2.1
+  case case3 s joins h s' j' hfs e he ch hem =>
+    intro _
+    have hg := futStep_go (body := []) (by simpa using h) hfs
+    simp [rem, hg.2.1, hg.2.2.1, chunksOf]
+  case case4 => intro h; simp at h
+  case case5 s joins h s' j' hfs he =>
+    intro _
+    have hg := futStep_go (body := []) (by simpa using h) hfs
+    simp [rem, hg.2.1, hg.2.2.1, he, chunksOf]
+  case case6 => intro h; simp at h
+  case case7 => intro h; simp at h
+  case case8 s joins h s' j' hfs b rest e he hlt r s2 hem ih =>
+    intro h1
+    exact ih h1
+  case case9 => intro h; simp at h
+  case case10 s joins h s' j' hfs b rest e he hge ih =>
+    intro h1
+    exact ih h1
+  case case11 => intro h; simp at h
+
+/-! ### `drive`: the whole stream -/
+
+theorem drive_succ (ip : Bytes → Bool) (c : Codec σ) (fuel : Nat) (s : Enc σ) (body : List BodyEv) (joins : List Nat) :
+    driveAt ip c (fuel + 1) s body joins =
+      if (pollNextAt ip c s body joins).1 = .done then [.done]
+      else if (pollNextAt ip c s body joins).1 = .err then [.err]
+      else (pollNextAt ip c s body joins).1 ::
+        driveAt ip c fuel (pollNextAt ip c s body joins).2.1 (pollNextAt ip c s body joins).2.2.1
+          (pollNextAt ip c s body joins).2.2.2 := by
+  simp only [driveAt]
+  rcases pollNextAt ip c s body joins with ⟨o, s', b', j'⟩
+  cases o <;> simp
+
+/-- with enough polls the stream ends (`Ready(None)` or an error) after at most `mu + 1` polls -/
+theorem drive_terminates (ip : Bytes → Bool) (c : Codec σ) : ∀ (fuel : Nat) (s : Enc σ) (body : List BodyEv) (joins : List Nat),
+    mu s body joins < fuel →
+      ((driveAt ip c fuel s body joins).getLast? = some .done ∨
+        (driveAt ip c fuel s body joins).getLast? = some .err) ∧
+      (driveAt ip c fuel s body joins).length ≤ mu s body joins + 1 := by
+  intro fuel
+  induction fuel with
+  | zero => intro s body joins h; omega
+  | succ n ih =>
+    intro s body joins h
+    rw [drive_succ]
+    by_cases h1 : (pollNextAt ip c s body joins).1 = .done
+    · simp [h1]
+    · by_cases h2 : (pollNextAt ip c s body joins).1 = .err
+      · simp [h1, h2]
+      · simp only [h1, h2, ↓reduceIte]
+        have hm := pollNext_mu ip c s body joins h1 h2
+        have := ih (pollNextAt ip c s body joins).2.1 (pollNextAt ip c s body joins).2.2.1
+          (pollNextAt ip c s body joins).2.2.2 (by omega)
+        refine ⟨?_, by simp only [List.length_cons]; omega⟩
+        rcases this.1 with h' | h'
+        · left; rw [List.getLast?_cons]; simp [h']
+        · right; rw [List.getLast?_cons]; simp [h']
+
+/-- if the body does not fail, the stream ends with `Ready(None)` and the emitted bytes are
+exactly `rem` -/
+theorem drive_rem (ip : Bytes → Bool) (c : Codec σ) : ∀ (fuel : Nat) (s : Enc σ) (body : List BodyEv) (joins : List Nat),
+    hasErr body = false → mu s body joins < fuel →
+      (outChunks (driveAt ip c fuel s body joins)).flatten = rem c s body ∧
+      (driveAt ip c fuel s body joins).getLast? = some .done := by
+  intro fuel
+  induction fuel with
+  | zero => intro s body joins _ h; omega
+  | succ n ih =>
+    intro s body joins hb h
+    obtain ⟨hr, hb', hne⟩ := pollNext_rem ip c s body joins hb
+    rw [drive_succ]
+    by_cases h1 : (pollNextAt ip c s body joins).1 = .done
+    · simp only [h1, ↓reduceIte, outChunks, List.flatten_nil, List.getLast?_singleton, and_true]
+      -- after `done` nothing is left to come
+      rw [h1] at hr
+      simp only [outBytes, List.nil_append] at hr
+      rw [← hr]
+      exact (rem_after_done ip c s body joins h1).symm
+    · simp only [h1, hne, ↓reduceIte]
+      have hm := pollNext_mu ip c s body joins h1 hne
+      obtain ⟨ih1, ih2⟩ := ih (pollNextAt ip c s body joins).2.1 (pollNextAt ip c s body joins).2.2.1
+        (pollNextAt ip c s body joins).2.2.2 hb' (by omega)
+      refine ⟨?_, by rw [List.getLast?_cons]; simp [ih2]⟩
+      rw [← hr, ← ih1]
+      cases (pollNextAt ip c s body joins).1 <;> simp [outChunks, outBytes]
+
+/-- once `poll_next` has answered `Ready(None)` it keeps doing so -/
+theorem pollNext_done_stable (ip : Bytes → Bool) (c : Codec σ) (s : Enc σ) (body : List BodyEv)
+    (joins : List Nat) :
+    (pollNextAt ip c s body joins).1 = .done → ∀ joins' : List Nat,
+      (pollNextAt ip c (pollNextAt ip c s body joins).2.1 (pollNextAt ip c s body joins).2.2.1 joins').1
+        = .done := by
+  fun_induction pollNextAt ip c s body joins
+  case case1 h => intro _ j; rw [pollNextAt]; simp [h]
+  case case2 s body joins h o s' j' hfs =>
+    intro ho
+    have := futStep_ret (body := body) (by simpa using h) hfs
+    exact absurd ho this.2.2.2.1
+  case case3 s joins h s' j' hfs e he ch hem =>
+    intro _ j
+    have hg := futStep_go (body := []) (by simpa using h) hfs
+    rw [pollNextAt]; simp [hg.2.1, hg.2.2.1, futStep]
+  case case4 => intro h; simp at h
+  case case5 s joins h s' j' hfs he =>
+    intro _ j
+    have hg := futStep_go (body := []) (by simpa using h) hfs
+    rw [pollNextAt]; simp [hg.2.1, hg.2.2.1, futStep, he]
+  case case6 => intro h; simp at h
+  case case7 => intro h; simp at h
+  case case8 ih => intro h1; exact ih h1
+  case case9 => intro h; simp at h
+  case case10 ih => intro h1; exact ih h1
+  case case11 => intro h; simp at h
+
+/-- a failing body: `poll_next` never answers `Ready(None)` before the failure is reached, and
+the failure stays ahead until it is reported -/
+theorem pollNext_err (ip : Bytes → Bool) (c : Codec σ) (s : Enc σ) (body : List BodyEv) (joins : List Nat) :
+    s.eof = false → hasErr body = true →
+      (pollNextAt ip c s body joins).1 ≠ .done ∧
+      ((pollNextAt ip c s body joins).1 = .err ∨
+        ((pollNextAt ip c s body joins).2.1.eof = false ∧
+          hasErr (pollNextAt ip c s body joins).2.2.1 = true)) := by
+  fun_induction pollNextAt ip c s body joins
+  case case1 h => intro he; simp [h] at he
+  case case2 s body joins h o s' j' hfs =>
+    intro _ hb
+    have := futStep_ret (body := body) (by simpa using h) hfs
+    exact ⟨this.2.2.2.1, Or.inr ⟨this.2.1, hb⟩⟩
+  case case3 => intro _ hb; simp [hasErr] at hb
+  case case4 => intro _ hb; simp [hasErr] at hb
+  case case5 => intro _ hb; simp [hasErr] at hb
+  case case6 => intro _ _; simp
+  case case7 s joins h s' j' hfs rest =>
+    intro _ hb
+    have hg := futStep_go (body := rest) (by simpa using h) hfs
+    exact ⟨by simp, Or.inr ⟨hg.2.1, by simpa [hasErr] using hb⟩⟩
+  case case8 s joins h s' j' hfs b rest e he hlt r s2 hem ih =>
+    intro _ hb
+    have hg := futStep_go (body := rest) (by simpa using h) hfs
+    exact ih hg.2.1 (by simpa [hasErr] using hb)
+  case case9 s joins h s' j' hfs b rest e he hlt r s2 hem =>
+    intro _ hb
+    have hg := futStep_go (body := rest) (by simpa using h) hfs
+    exact ⟨by simp, Or.inr ⟨hg.2.1, by simpa [hasErr] using hb⟩⟩
+  case case10 s joins h s' j' hfs b rest e he hge ih =>
+    intro _ hb
+    have hg := futStep_go (body := rest) (by simpa using h) hfs
+    exact ih hg.2.1 (by simpa [hasErr] using hb)
+  case case11 s joins h s' j' hfs b rest he =>
+    intro _ hb
+    have hg := futStep_go (body := rest) (by simpa using h) hfs
+    exact ⟨by simp, Or.inr ⟨hg.2.1, by simpa [hasErr] using hb⟩⟩
+
+theorem drive_err (ip : Bytes → Bool) (c : Codec σ) : ∀ (fuel : Nat) (s : Enc σ) (body : List BodyEv)
+    (joins : List Nat), s.eof = false → hasErr body = true → mu s body joins < fuel →
+      (driveAt ip c fuel s body joins).getLast? = some .err := by
+  intro fuel
+  induction fuel with
+  | zero => intro s body joins _ _ h; omega
+  | succ n ih =>
+    intro s body joins hs hb h
+    obtain ⟨h1, h2⟩ := pollNext_err ip c s body joins hs hb
+    rw [drive_succ]
+    simp only [h1, ↓reduceIte]
+    by_cases he : (pollNextAt ip c s body joins).1 = .err
+    · simp [he]
+    · simp only [he, ↓reduceIte]
+      rcases h2 with h2 | ⟨h2, h3⟩
+      · exact absurd h2 he
+      · have hm := pollNext_mu ip c s body joins h1 he
+        have := ih (pollNextAt ip c s body joins).2.1 (pollNextAt ip c s body joins).2.2.1
+          (pollNextAt ip c s body joins).2.2.2 h2 h3 (by omega)
+        rw [List.getLast?_cons]; simp [this]
+
+/-- the forwarding state `{encoder: None, fut: None, eof: false}` -/
+theorem drive_plain (ip : Bytes → Bool) (c : Codec σ) : ∀ (fuel : Nat) (body : List BodyEv) (joins : List Nat),
+    2 * body.length < fuel →
+      outChunks (driveAt ip c fuel ⟨none, none, false⟩ body joins) = chunksOf body ∧
+      (driveAt ip c fuel ⟨none, none, false⟩ body joins).getLast?
+        = some (if hasErr body then .err else .done) := by
+  intro fuel
+  induction fuel with
+  | zero => intro body joins h; omega
+  | succ n ih =>
+    intro body joins h
+    cases body with
+    | nil => simp [driveAt, pollNextAt, futStep, outChunks, chunksOf, hasErr]
+    | cons ev rest =>
+      cases ev with
+      | chunk b =>
+        have := ih rest joins (by simp only [List.length_cons] at h; omega)
+        simp only [driveAt]
+        rw [pollNextAt]
+        simp only [Bool.false_eq_true, ↓reduceIte, futStep, outChunks, chunksOf, hasErr, this.1,
+          List.getLast?_cons, this.2]
+        simp
+        try rfl
+      | pending =>
+        have := ih rest joins (by simp only [List.length_cons] at h; omega)
+        simp only [driveAt]
+        rw [pollNextAt]
+        simp only [Bool.false_eq_true, ↓reduceIte, futStep, outChunks, chunksOf, hasErr, this.1,
+          List.getLast?_cons, this.2]
+        simp
+        try rfl
+      | err =>
+        simp only [driveAt]
+        rw [pollNextAt]
+        simp [futStep, outChunks, chunksOf, hasErr]
+
+end ActixModel.Encoder
